@@ -577,3 +577,50 @@ def fmt_fixed2(kind, bits):
     if 2 * r > x.denominator or (2 * r == x.denominator and q & 1):
         q += 1
     return "%s%d.%02d" % (sgn, q // 100, q % 100)
+
+
+def program_assign_lit(tl_kind, old, t):
+    """var x = <old>; x = <expr over literals>; x   (the conversion wraps a literal tree)"""
+    decl, names = enum_decl(t)
+    body = expr_text(t, lambda i, leaf: lit_text(leaf, names))
+    return "%sfunc main() -> %s { var x = %s; x = %s; x }" % (
+        decl, KIND_TY[tl_kind], lit_text(("L", tl_kind, old), {}), body)
+
+
+def subtrees(t, acc=None):
+    """all proper and improper subtrees that are expressions of their own (P nodes skipped)"""
+    acc = [] if acc is None else acc
+    if t[0] == "P":
+        return subtrees(t[1], acc)
+    acc.append(t)
+    if t[0] != "L":
+        for c in t[1:]:
+            if isinstance(c, tuple):
+                subtrees(c, acc)
+    return acc
+
+
+def size(t):
+    return 1 if t[0] == "L" else 1 + sum(size(c) for c in t[1:] if isinstance(c, tuple))
+
+
+def random_tree(rng, depth, kinds=("b", "i", "l", "f", "d", "e")):
+    """random source tree (not necessarily well typed: the model's typechecker filters)"""
+    def leaf():
+        k = rng.choice(kinds)
+        return atom(value_tree(k, pick_value(rng, k, 0.5)))
+
+    def go(d):
+        if d == 0 or rng.random() < 0.2:
+            return leaf()
+        r = rng.random()
+        if r < 0.12:
+            return ("P", ("U", rng.choice(["neg", "bnot", "not"]), go(d - 1)))
+        if r < 0.22:
+            c = ("P", ("B", rng.choice(CMP + ["and", "or"]), go(d - 1), go(d - 1))) if rng.random() < 0.7 \
+                else ("L", "b", rng.randrange(2))
+            return ("P", ("C", c, go(d - 1), go(d - 1)))
+        op = rng.choice(list(BINSYM))
+        return ("P", ("B", op, go(d - 1), go(d - 1)))
+    t = go(depth)
+    return t[1] if t[0] == "P" else t
